@@ -897,7 +897,7 @@ impl CKBProtocolHandler for Synchronizer {
             Ok(msg) => {
                 let item = msg.to_enum();
                 if let packed::SyncMessageUnionReader::SendBlock(ref reader) = item {
-                    if reader.has_extra_fields() || reader.block().count_extra_fields() > 1 {
+                    if crate::utils::send_block_is_malformed(reader) {
                         info!(
                             "A malformed message from peer {}: \
                              excessive fields detected in SendBlock",
